@@ -36,6 +36,8 @@ def stimuli():
     for s in SENDS:
         out.append(("send", s))
     out.append(("eof",))
+    out.append(("reset",))  # transport torn down with an error: read(), drain() and wait_closed() all raise it
+    out.append(("oserr",))
     out.append(("tick", 100))
     out.append(("appdisc_eof",))
     return out
@@ -155,6 +157,14 @@ def apply(w, mon, stim, rootname, role):
             return "skip"
         w.reader.feed_eof()
         w.run()
+    elif kind in ("reset", "oserr"):
+        if w.reader is None:
+            return "skip"
+        exc = ConnectionResetError("reset by peer") if kind == "reset" else OSError(113, "No route to host")
+        w.reader.set_exception(exc)
+        if w.writer is not None:
+            w.writer.fail(ConnectionResetError, lost=exc)
+        w.run()
     elif kind == "tick":
         w.advance(stim[1])
     elif kind == "appdisc_eof":
@@ -223,12 +233,12 @@ def apply(w, mon, stim, rootname, role):
         if a["ndisc"] - b["ndisc"] != 1:
             return V("disconnect_not_reported_once", "app_disconnect_then_eof", "reports the disconnect exactly once")
         return None
-    if kind in ("eof", "tick"):
-        if kind == "eof":
+    if kind in ("eof", "tick", "reset", "oserr"):
+        if kind != "tick":
             if not a["dead"]:
-                return V("eof_not_disconnected", "eof", "a closed transport leaves the connection disconnected")
+                return V("eof_not_disconnected", kind, "a closed transport leaves the connection disconnected")
             if a["ndisc"] - b["ndisc"] != 1:
-                return V("disconnect_not_reported_once", "eof", "reports the disconnect exactly once")
+                return V("disconnect_not_reported_once", kind, "reports the disconnect exactly once")
         return None
     # ---------------- inbound frames -----------------------------------------------------
     cls, defect = stim[1], stim[2]
